@@ -44,7 +44,7 @@ P == Len(lead)
 Case == [lead |-> lead, prefix |-> prefix, suffix |-> suffix, crlf |-> crlf, ending |-> ending, ltext |-> ltext, wrap |-> wrap,
          head_line |-> HeadLine(P), link_line |-> LinkLineW(P, wrap), block_line |-> HeadLine(P) + 2, ref_line |-> RefLineW(P, wrap), item_line |-> ItemLineW(P, wrap),
          link_start |-> LinkStart(prefix), link_end |-> LinkEndT(prefix, ltext), url_start |-> UrlStartT(prefix, ltext),
-         url_end |-> UrlEndT(prefix, ltext), j_line |-> JLineW(P, wrap), quote_line |-> QuoteLineW(P, wrap),
+         url_end |-> UrlEndT(prefix, ltext), j_line |-> JLineW(P, wrap), k_line |-> KLineW(P, wrap), k2_line |-> K2LineW(P, wrap), quote_line |-> QuoteLineW(P, wrap),
          wiki_line |-> WikiLineW(P, wrap), maxch |-> IF LinkEndT(prefix, ltext) + 6 > 18 THEN LinkEndT(prefix, ltext) + 6 ELSE 18,
          table_line |-> TableLineW(P, wrap), cell_line |-> CellLineW(P, wrap), z_line |-> ZLineW(P, wrap), y_line |-> YLineW(P, wrap),
          eof |-> eof, last_line |-> YLineW(P, wrap)]
